@@ -205,7 +205,7 @@ pub unsafe fn s_inner_try_send<RW: QueueRW<Pay>>(n: usize, k: usize, mpmc: bool)
 
     let a1 = w.observe();
     let te1 = MemoryManager::vf_token_epoch(tx.token);
-    assert!(te1 == if ep { ge } else { te0 }, "C16: a flagged handle announces the current epoch at the start of the operation, an unflagged one does not touch its token");
+    assert!(te1 == if ep { ge } else { te0 }, "C16/C17: a flagged handle announces the current epoch at the start of the operation, an unflagged one does not touch its token");
     if a0.k == 0 {
         match r {
             Err(TrySendError::Disconnected(back)) => {
@@ -321,7 +321,7 @@ pub unsafe fn s_inner_recv<RW: QueueRW<Pay>>(n: usize, k: usize, mpmc: bool, kin
 
     let a1 = w.observe();
     let te1 = MemoryManager::vf_token_epoch(rx.token);
-    assert!(te1 == if ep { ge } else { te0 }, "C16: a flagged handle announces the current epoch at the start of the operation");
+    assert!(te1 == if ep { ge } else { te0 }, "C16/C17: a flagged handle announces the current epoch at the start of the operation");
     assert!(pay::DOUBLE_DROP == 0 && pay::DROP_OF_UNCREATED == 0, "C05: double drop / drop of garbage");
     let blocking = kind == RecvKind::Block || kind == RecvKind::BlockView;
     if cur < a0.head {
@@ -545,7 +545,7 @@ pub unsafe fn s_add_stream<RW: QueueRW<Pay>>(n: usize, k: usize) {
         assert!(lv1.pos_ptr[j] == lv0.pos_ptr[j] && lv1.pos[j] == a0.pos[j], "C01/C03/C10: existing streams keep their position and backpressure");
         j += 1;
     }
-    assert!(lv1.pos_ptr[a0.k] == rx2.reader.vf_pos_ptr() && lv1.pos[a0.k] == a0.pos[i], "C01/C03/C10: the new stream starts at the parent's position (a stream registered elsewhere loses values and breaks the window test)");
+    assert!(lv1.pos_ptr[a0.k] == rx2.reader.vf_pos_ptr() && lv1.pos[a0.k] == a0.pos[i], "C01/C02/C03/C10: the new stream starts at the parent's position (a stream registered elsewhere loses values and breaks the window test)");
     assert!(rx2.reader.vf_consumers() == 1 && rx2.reader.vf_is_single_state() && rx2.reader.vf_mask() == n - 1, "C10: the new stream has one consumer on the same ring");
     assert!(rx2.alive && w.q.manager.vf_has_token(rx2.token) && w.q.manager.vf_ntokens() == nt0 + 1, "C16: the new handle gets its own registered token");
     assert!(a1.head == a0.head && a1.writers == a0.writers && a1.tail_cache == a0.tail_cache && same_except_slot(&a0, &a1, usize::MAX), "C10: no side effects on the log, the cache, the senders or any slot");
